@@ -4,13 +4,19 @@
 (* all byte values 1..255.  TLC evaluates the SAME reference operators of StrHelpers on them and emits the      *)
 (* expected results; the laws are re-checked on every tuple of moderate size.                                   *)
 (*   {"k":"inplace","s":[..]}   {"k":"copy","size":n,"src":[..],"pre":[..]}   {"k":"substr","s":[..],"idx":i,"cnt":c} *)
+(*   {"k":"roomy","size":N,"src":[..],"pre":[..]}   N anywhere up to INT_MAX, N >= pre + src + 1 (class "roomy")      *)
+(* Extreme integer arguments (INT_MAX, INT_MAX-k, INT_MIN, INT_MIN+k, 2^30, 65535..65537, ...) of substr come through *)
+(* the "substr" rows as numbers: the reference's arithmetic on them never leaves 32 bits (it adds a length <= Len(s)  *)
+(* to a negative number or takes a minimum), which is itself part of what the reference says.                          *)
 EXTENDS StrHelpers, IOUtils
 Cases == ndJsonDeserialize(IOEnv.CASES)
 Row == x.idx
 C == Cases[Row]
 
 \* the n for which safe_str(s, n) is asked: both ends and the neighbours of the word sizes
-SafeNs(len) == {n \in {0, 1, 7, 8, 9, 15, 16, 17, 31, 32, 33, len - 9, len - 8, len - 7, len - 1, len} : n >= 0 /\ n <= len}
+\* (n is an unsigned short in the implementation: 65535 is its extreme value)
+SafeNs(len) == {n \in {0, 1, 7, 8, 9, 15, 16, 17, 31, 32, 33, len - 9, len - 8, len - 7, len - 1, len, 65534, 65535} :
+                    n >= 0 /\ n <= len /\ n <= 65535}
 SetToSortedSeq(S) == LET RECURSIVE F(_) F(T) == IF T = {} THEN <<>> ELSE LET m == Min(T) IN <<m>> \o F(T \ {m}) IN F(S)
 InPlaceSome(s) == LET ns == SetToSortedSeq(SafeNs(Len(s))) IN
                   [chomp |-> Chomp(s).result, condense |-> Condense(s).result, down |-> Downcase(s).result,
@@ -23,9 +29,12 @@ EvalFileInPlace == /\ ~done /\ fam = "file" /\ C.k = "inplace" /\ done' = TRUE /
 EvalFileCopy    == /\ ~done /\ fam = "file" /\ C.k = "copy" /\ done' = TRUE /\ UNCHANGED <<fam, x>>
                    /\ LET b == Buffer(C.size, C.pre) IN
                       Obs("copy", <<Row, b>>, [cpy |-> SafeStrncpy(C.size, C.src, b), cat |-> SafeStrncat(C.size, C.src, b)], TRUE)
+EvalFileRoomy   == /\ ~done /\ fam = "file" /\ C.k = "roomy" /\ done' = TRUE /\ UNCHANGED <<fam, x>>
+                   /\ Assert(C.size >= Len(C.pre) + Len(C.src) + 1, <<"not a roomy size", Row>>)
+                   /\ Obs("roomy", <<Row>>, RoomyCopy(C.src, C.pre), TRUE)
 EvalFileSubstr  == /\ ~done /\ fam = "file" /\ C.k = "substr" /\ done' = TRUE /\ UNCHANGED <<fam, x>>
                    /\ Obs("substr", <<Row>>, Substr(C.s, C.idx, C.cnt), TRUE)
-FileNext == EvalFileInPlace \/ EvalFileCopy \/ EvalFileSubstr
+FileNext == EvalFileInPlace \/ EvalFileCopy \/ EvalFileRoomy \/ EvalFileSubstr
 FileSpec == FileInit /\ [][FileNext]_vars
 
 \* the laws of StrHelpers on the file tuples (texts up to 40 bytes: the quadratic law formulas; copies and slices of any size)
@@ -33,5 +42,5 @@ FileLaws == (fam = "file" /\ ~done) =>
                /\ (C.k = "inplace" /\ Len(C.s) <= 40) => InPlaceLawsOf(C.s)
                /\ (C.k = "copy") => CopyLawsOf(C.size, C.src, C.pre)
                /\ (C.k = "substr") => SubstrLawsOf(C.s, C.idx, C.cnt)
-ObsEmitFile(op, args, ret, post) == PrintT(ToJson([op |-> op, args |-> args, exp |-> ret]))
+ObsEmitFile(op, args, ret, post) == PrintT(ToJson([op |-> op, args |-> args, exp |-> ret, lv |-> DebugLevels]))
 ================================================================================
